@@ -542,14 +542,7 @@ func (ex *Exec) obligation(cond *Term, label, kind string, pos token.Pos) {
 		}
 		j.mu.Unlock()
 	}
-	// continue under the assumption that the condition holds
-	if cond.IsConst() {
-		ex.abort("violated", "assertion %s is false on this path", label)
-	}
-	if r, _, _ := ex.check(cond, false); r == Unsat {
-		ex.abort("violated", "assertion %s is false on this path", label)
-	}
-	ex.pc = append(ex.pc, cond)
+	// obligations never constrain the path: later assertions are checked independently
 }
 
 func (ex *Exec) assert(cond *Term, label string, pos token.Pos) {
@@ -605,7 +598,7 @@ func (ex *Exec) reach(label string) {
 func (ex *Exec) pathDone() {
 	j := ex.job
 	j.mu.Lock()
-	need := len(j.Witnesses) < j.Cfg.Witnesses && (ex.newReach || len(j.Witnesses) == 0)
+	need := len(j.Witnesses) < j.Cfg.Witnesses
 	j.mu.Unlock()
 	if !need || ex.noReplay {
 		return
